@@ -109,12 +109,13 @@ DECODERS = {
 }
 
 
-def h_arbitrary(ctx, name, n):
+def h_arbitrary(ctx, name, n, view=False):
     dec = DECODERS[name][0]
-    # the buffer is handed over as bytes for even lengths and as a bytearray for odd ones; a decoder must not write to it
+    # the buffer is handed over as bytes for even lengths and as a bytearray for odd ones; a decoder must not write to it.
+    # view=True: as a memoryview of such a buffer (what a receiver slicing its receive buffer without copying hands over)
     data = ctx.octets("data", n, mutable=bool(n % 2))
     before = list(items_of(data))
-    e, u = call(dec, data)
+    e, u = call(dec, ctx.view_of(data) if view else data)
     check_outcome(ctx, e, name)
     after = items_of(data)
     ctx.holds("the caller's input buffer is left as it was", len(after) == len(before) and sym_and(*[a == b for a, b in zip(after, before)]))
@@ -234,6 +235,9 @@ def cases(tier):
         for n in range(0, tier_pick(tier, nq, nt) + 1):
             cs.append(Case("arb-%s-n%02d" % (name, n), "arbitrary", h_arbitrary, dict(name=name, n=n), budget=1800,
                            bounds="%s on every octet string of length %d" % (name, n)))
+            if n >= tier_pick(tier, nq - 3, 0):
+                cs.append(Case("arbview-%s-n%02d" % (name, n), "arbitrary", h_arbitrary, dict(name=name, n=n, view=True), budget=1800,
+                               bounds="%s on every octet string of length %d handed over as a memoryview" % (name, n)))
     cs.append(Case("twin", "arbitrary", h_twin, {}, expect_violation=True, bounds="reachability twin"))
     for sub in range(0, 10):
         for k in range(0, tier_pick(tier, 8, 12)):
